@@ -19,7 +19,7 @@ def run(ctx):
     tc.run_stream(ctx, "tensor-bw-naive", BW, n, backend="naive", exhaustive_ops=("max_bw", "flip_bw"))
     tc.optional_part(ctx, "scalar", "run_part", "C01")
     tc.optional_part(ctx, "bwtables", "run_part")
-    summ = tc.optional_part(ctx, "progcheck", "run_mode", "grad", 200 if ctx.quick() else 4000)
+    summ = tc.optional_part(ctx, "progcheck", "run_mode", "grad", 3000 if ctx.quick() else 40000)
     if summ is not None:
         ctx.cov["program_level_gradcheck"] = summ
     confirm_d11(ctx)
